@@ -1,6 +1,6 @@
 /-
 Model of the unbounded-buffer goroutine that `NewWriter` (and `NewReader`) start between the
-unbuffered channels `in` and `out` (`pkg/packet/writer.go:47`):
+unbuffered channels `in` and `out` (`pkg/packet/writer.go:51`):
 
     defer close(w.out)
     buffer := make([]*Packet, 0, 2)
@@ -25,10 +25,17 @@ Steps (one per channel operation the goroutine takes part in):
   `enq a`   a sender hands `a` over on `in` (the writer only sends while not closed, under its lock)
   `deq`     the consumer receives the oldest buffered packet from `out`
   `closeIn` `close(w.in)` (last action of `Writer.Close`)
-  `exit`    the goroutine observes the closed `in` and returns – whatever is buffered is dropped;
-            while packets are buffered and a consumer is ready, Go's `select` may equally pick
-            `deq`, so both orders are possible schedules.
-`pushed` and `delivered` are ghost logs.
+  `exit`    the goroutine returns and `close(w.out)` runs.
+            * `step` (rule `discard`) – **the code**: the goroutine returns as soon as it observes the
+              closed `in`; whatever is buffered is dropped.  While packets are buffered and a consumer
+              is ready, Go's `select` may equally pick `deq`, so both orders are possible schedules.
+            * `stepDrain` (rule `drain`) – the repair that was tried for DESIGN.md §7 row 7 and
+              **withdrawn**: hand the buffer to `out` before returning (`for _, pck := range buffer
+              { w.out <- pck }`).  It loses nothing, but the goroutine can then return only when a
+              consumer has read everything – a writer whose consumer abandons its responses keeps the
+              goroutine parked for ever after `Close` (C05).  Kept to state both facts as theorems.
+`pushed` and `delivered` are ghost logs.  `recv` is what a consumer doing `<-out` sees; with the
+code's rule the closed channel stands for the responses that were discarded.
 -/
 namespace Uniflow.Pump
 
@@ -47,17 +54,49 @@ structure P (α : Type) where
   delivered : List α := []
   deriving DecidableEq, Repr
 
-def step {α : Type} (p : P α) : Step α → P α
+/-- The exit rule of the goroutine. -/
+inductive Rule where
+  | discard   -- the code (writer and reader pump): return on the closed `in`, dropping the buffer
+  | drain     -- the withdrawn repair: hand the buffer over, then return
+  deriving DecidableEq, Repr
+
+def stepR {α : Type} (rule : Rule) (p : P α) : Step α → P α
   | .enq a => if p.inClosed then p else { p with buf := p.buf ++ [a], pushed := p.pushed ++ [a] }
   | .deq =>
     match p.buf with
     | [] => p
     | a :: rest => { p with buf := rest, delivered := p.delivered ++ [a] }
   | .closeIn => { p with inClosed := true }
-  | .exit => if p.inClosed then { p with exited := true, buf := [] } else p
+  | .exit =>
+    match rule with
+    | .drain => if p.inClosed && p.buf.isEmpty then { p with exited := true } else p
+    | .discard => if p.inClosed then { p with exited := true, buf := [] } else p
+
+/-- The pump as it is in the code. -/
+def step {α : Type} (p : P α) (s : Step α) : P α := stepR .discard p s
+
+/-- The pump with the withdrawn repair. -/
+def stepDrain {α : Type} (p : P α) (s : Step α) : P α := stepR .drain p s
 
 def run {α : Type} (p : P α) : List (Step α) → P α
   | [] => p
   | s :: h => run (step p s) h
+
+def runDrain {α : Type} (p : P α) : List (Step α) → P α
+  | [] => p
+  | s :: h => runDrain (stepDrain p s) h
+
+/-- What `<-out` gives a consumer in state `p`: the oldest buffered packet, the zero value of
+the closed channel once the goroutine has returned, or nothing yet (the consumer stays parked). -/
+inductive Recv (α : Type) where
+  | got (a : α)
+  | closed
+  | blocked
+  deriving DecidableEq, Repr
+
+def recv {α : Type} (p : P α) : Recv α :=
+  match p.buf with
+  | a :: _ => .got a
+  | [] => if p.exited then .closed else .blocked
 
 end Uniflow.Pump
